@@ -67,7 +67,9 @@ mod imp {
                       /// calls itself until the frame limit is reached
                       Loop,
                       /// a CLOSURE (made by a maker function of its own) that calls a global function
-                      Closure(String) }
+                      Closure(String),
+                      /// a closure that calls a global function and THEN mutates a global of its own layout
+                      ClosureBump(String, String) }
     #[derive(Clone, Debug, PartialEq)]
     /// home: the name the function was declared under (every call passes arg_of(home), also through a variable that holds it)
     pub struct FnDef { pub home: String, pub tag: String, pub kind: FnKind }
@@ -80,6 +82,8 @@ mod imp {
         Def { name: String, def: FnDef },
         /// `let mut h = f` (fresh) / `h = f`: a variable holds the function value f denotes right now
         CopyFn { dst: String, src: String, fresh: bool },
+        /// an expression statement that touches no global (`1 + 1`): the input's unit has the empty layout
+        Quiet,
         PrintVar { name: String },
         PrintCall { f: String, arg: i64 },
         PrintApply { a: String, f: String, arg: i64 },   // println(a(f, arg)): a takes a function value and has no globals
@@ -117,8 +121,10 @@ mod imp {
                 FnKind::Bump0(g) => format!("fn {}(x) {{ println(\"{}\"); {} = {} + x; let q = 0 }}", name, def.tag, g, g),
                 FnKind::Loop => format!("fn {}(x) {{ return {}({}) + 1 }}", name, name, arg_of(name)),
                 FnKind::Closure(t) => format!("fn mk{}(c) {{ return fn(x) {{ println(\"{}\"); return {}({}) + c }} }}\nlet mut {} = mk{}(0)", name, def.tag, t, arg_of(t), name, name),
+                FnKind::ClosureBump(t, g) => format!("fn mk{}(c) {{ return fn(x) {{ println(\"{}\"); let r = {}({}); {} = {} + 1; return r + c }} }}\nlet mut {} = mk{}(0)", name, def.tag, t, arg_of(t), g, g, name, name),
             } },
             Stmt::CopyFn { dst, src, fresh } => if *fresh { format!("let mut {} = {}", dst, src) } else { format!("{} = {}", dst, src) },
+            Stmt::Quiet => "1 + 1".to_string(),
             Stmt::PrintVar { name } => format!("println({})", name),
             Stmt::PrintCall { f, arg } => format!("println({}({}))", f, arg),
             Stmt::PrintApply { a, f, arg } => format!("println({}({}, {}))", a, f, arg),
@@ -154,6 +160,9 @@ mod imp {
                 FnKind::Boom | FnKind::Loop => Err(()),
                 FnKind::CallF(t, k) => match self.call(&t, arg_of(&t), out)? { Some(v) => Ok(Some(v + k)), None => Err(()) },
                 FnKind::Closure(t) => match self.call(&t, arg_of(&t), out)? { Some(v) => Ok(Some(v)), None => Err(()) },
+                FnKind::ClosureBump(t, g) => match self.call(&t, arg_of(&t), out)? {
+                    Some(v) => match self.vars.get(&g).cloned() { Some((Val::Int(n), m)) => { self.vars.insert(g, (Val::Int(n + 1), m)); Ok(Some(v)) } _ => Err(()) },
+                    None => Err(()) },
                 FnKind::Apply => Err(()),
             }
         }
@@ -173,6 +182,7 @@ mod imp {
                     Stmt::AddTo { name, k } => { if let (Val::Int(n), m) = self.vars[name].clone() { self.vars.insert(name.clone(), (Val::Int(n + k), m)); } }
                     Stmt::Def { name, def } => { self.vars.remove(name); self.fns.insert(name.clone(), def.clone()); }
                     Stmt::CopyFn { dst, src, .. } => { if let Some(d) = self.fns.get(src).cloned() { self.vars.remove(dst); self.fns.insert(dst.clone(), d); } }
+                    Stmt::Quiet => {}
                     Stmt::PrintVar { name } => { out.push_str(&self.vars[name].0.show()); out.push('\n'); }
                     Stmt::PrintLit { text } => { out.push_str(text); out.push('\n'); }
                     Stmt::PrintCall { f, arg } | Stmt::PrintApply { f, arg, .. } => match self.call(f, *arg, &mut out) {
@@ -330,7 +340,7 @@ mod imp {
         }
         /// does a call of this function fail (division by zero), directly or in the function it calls?
         pub fn fails(&self, d: &FnDef) -> bool {
-            match &d.kind { FnKind::Boom | FnKind::Loop => true, FnKind::CallF(t, _) | FnKind::Closure(t) => self.o.fns.get(t).map(|x| self.fails(x)).unwrap_or(true), _ => false }
+            match &d.kind { FnKind::Boom | FnKind::Loop => true, FnKind::CallF(t, _) | FnKind::Closure(t) | FnKind::ClosureBump(t, _) => self.o.fns.get(t).map(|x| self.fails(x)).unwrap_or(true), _ => false }
         }
         fn pick(&mut self, v: &[String]) -> String { v[self.rng.below(v.len() as u64) as usize].clone() }
         fn good_stmt(&mut self, defined_here: &mut HashSet<String>, assigned_here: &mut HashSet<String>) -> Option<Stmt> {
@@ -356,6 +366,10 @@ mod imp {
                     defined_here.insert(name.clone());
                     let tag = self.fresh("T");
                     let t = self.pick(&callees);
+                    if !mv.is_empty() && self.rng.chance(1, 2) {
+                        let gname = self.pick(&mv); assigned_here.insert(gname.clone());
+                        return Some(Stmt::Def { name: name.clone(), def: FnDef { home: name.clone(), tag, kind: FnKind::ClosureBump(t, gname) } });
+                    }
                     return Some(Stmt::Def { name: name.clone(), def: FnDef { home: name.clone(), tag, kind: FnKind::Closure(t) } });
                 }
                 if !callees.is_empty() && self.rng.chance(1, 4) {
@@ -430,10 +444,10 @@ mod imp {
             let vars = self.o.vars.clone();
             self.o.fns.retain(|_, d| match &d.kind {
                 FnKind::ReadG(g) => matches!(vars.get(g), Some((Val::Int(_), _))),
-                FnKind::BumpG(g) | FnKind::Bump0(g) => matches!(vars.get(g), Some((Val::Int(_), true))),
+                FnKind::BumpG(g) | FnKind::Bump0(g) | FnKind::ClosureBump(_, g) => matches!(vars.get(g), Some((Val::Int(_), true))),
                 _ => true });
             let names: HashSet<String> = self.o.fns.keys().cloned().collect();
-            self.o.fns.retain(|_, d| match &d.kind { FnKind::CallF(t, _) | FnKind::Closure(t) => names.contains(t), _ => true });
+            self.o.fns.retain(|_, d| match &d.kind { FnKind::CallF(t, _) | FnKind::Closure(t) | FnKind::ClosureBump(t, _) => names.contains(t), _ => true });
         }
         pub fn step(&mut self, first: bool, flush: bool) -> Step {
             if first {
@@ -513,6 +527,21 @@ mod imp {
                     self.queued.push(Step::Input { stmts: vec![Stmt::Let { name: gname.clone(), mutable: false, val: Val::Int(v2) }], expect: Expect::Ok });
                     return Step::Input { stmts: vec![Stmt::Let { name: gname.clone(), mutable: false, val: Val::Int(v1) },
                                                      Stmt::Def { name: f.clone(), def: FnDef { home: f.clone(), tag: String::new(), kind: FnKind::ReadG(gname) } }], expect: Expect::Ok };
+                }
+            }
+            // directed: the host calls a closure that calls a global function and then mutates a global, right after the host
+            // called that function (its layout is the one loaded) or after an input that touches no global (no layout loaded)
+            if self.rng.chance(1, 8) {
+                let ks: Vec<(String, String, String)> = { let mut v: Vec<(String, String, String)> = self.o.fns.iter().filter_map(|(k, d)| match &d.kind { FnKind::ClosureBump(t, g) if !self.fails(d) => Some((k.clone(), t.clone(), g.clone())), _ => None }).collect(); v.sort(); v };
+                if !ks.is_empty() {
+                    let (k, t, g) = ks[self.rng.below(ks.len() as u64) as usize].clone();
+                    self.queued.push(Step::Input { stmts: vec![Stmt::PrintVar { name: g }], expect: Expect::Ok });
+                    self.queued.push(Step::Host { f: k.clone(), arg: arg_of(&k), cached: self.rng.chance(1, 3), extra: false });
+                    if self.rng.chance(1, 2) {
+                        let arg = self.arg_for(&t);
+                        return Step::Host { f: t, arg, cached: self.rng.chance(1, 3), extra: false };
+                    }
+                    return Step::Input { stmts: vec![Stmt::Quiet], expect: Expect::Ok };
                 }
             }
             // directed: a closure of an earlier input calls a global function; this input rebinds that function and, in the
@@ -691,6 +720,12 @@ mod imp {
                 if !failed { ops.push("OReturn".into()); }
                 (ops, failed)
             }
+            FnKind::ClosureBump(t, gv) => {
+                let _ = arg; let (inner, failed) = emit_call(t, arg_of(t), add, fns, fn_lay, names, problems, None);
+                ops.extend(inner);
+                if !failed { ops.push(format!("OAddIdx {} 1", fidx(gv, problems))); ops.push("OReturn".into()); }
+                (ops, failed)
+            }
             FnKind::Apply => { problems.push(format!("{} is called without a function argument", f)); (ops, false) }
         }
     }
@@ -745,6 +780,7 @@ mod imp {
             FnKind::Loop => (1, vec![format!("ICall (CGlobal {}%N) 1%N None", names.id(name))]),
             FnKind::Boom => (1, vec![tag, "IFail".to_string()]),
             FnKind::CallF(t, _) | FnKind::Closure(t) => (1, vec![tag, format!("ICall (CGlobal {}%N) 1%N None", names.id(t))]),
+            FnKind::ClosureBump(t, g) => (1, vec![tag, format!("ICall (CGlobal {}%N) 1%N None", names.id(t)), format!("IAdd {}%N 1", names.id(g))]),
             FnKind::Apply => (2, vec!["ICall CArg 1%N None".to_string()]),
         }
     }
@@ -881,13 +917,14 @@ mod imp {
                                     Stmt::Let { name, val, .. } => s_body.push(format!("ISet {}%N (VInt {})", names.id(name), zc(code_of_val(val)))),
                                     Stmt::SetLit { name, val } => s_body.push(format!("ISet {}%N (VInt {})", names.id(name), zc(*val))),
                                     Stmt::AddTo { name, k } => s_body.push(format!("IAdd {}%N {}", names.id(name), zc(*k))),
-                                    Stmt::Def { name, def } => match unit_lay.get(name).cloned().or_else(|| if matches!(def.kind, FnKind::Closure(_)) { layout_of_global(&vm, name) } else { None }) {
-                                        Some(l) => { let l = &l; if matches!(def.kind, FnKind::Closure(_)) { fn_lay.insert(name.clone(), l.clone()); } let ls = sx.layout(l, &mut names, &mut problems); let (ar, b) = fn_body(name, def, &mut names); let fid = sx.add_fn(ls, ar, b);
+                                    Stmt::Def { name, def } => match unit_lay.get(name).cloned().or_else(|| if matches!(def.kind, FnKind::Closure(_) | FnKind::ClosureBump(..)) { layout_of_global(&vm, name) } else { None }) {
+                                        Some(l) => { let l = &l; if matches!(def.kind, FnKind::Closure(_) | FnKind::ClosureBump(..)) { fn_lay.insert(name.clone(), l.clone()); } let ls = sx.layout(l, &mut names, &mut problems); let (ar, b) = fn_body(name, def, &mut names); let fid = sx.add_fn(ls, ar, b);
                                                      s_body.push(format!("IDef {}%N {}%N", names.id(name), fid)); }
                                         None => sx.fail(format!("no nested function {}", name)),
                                     },
                                     Stmt::CopyFn { dst, src, .. } => { s_body.push(format!("ICopy {}%N {}%N", names.id(dst), names.id(src)));
                                         if let Some(l) = fn_lay.get(src).cloned() { fn_lay.insert(dst.clone(), l); } }
+                                    Stmt::Quiet => {}
                                     Stmt::PrintVar { name } => s_body.push(format!("IPrint {}%N 0", names.id(name))),
                                     Stmt::PrintLit { text } => s_body.push(format!("IOut {}", zc(line_code(text)))),
                                     Stmt::Needs { .. } => {}
@@ -908,6 +945,7 @@ mod imp {
                                     Stmt::Def { name, def } => { if let Some(l) = unit_lay.get(name) { fn_lay.insert(name.clone(), l.clone()); }
                                         ops.push(format!("OSetIdx {} {}", top_idx(name, &mut problems), 2_000_000 + def.tag.get(1..).and_then(|t| t.parse::<i64>().ok()).unwrap_or(0))) }
                                     Stmt::CopyFn { dst, .. } => ops.push(format!("OSetIdx {} 2999999", top_idx(dst, &mut problems))),
+                                    Stmt::Quiet => {}
                                     Stmt::PrintVar { name } => ops.push(format!("OPrintIdx {} 0", top_idx(name, &mut problems))),
                                     Stmt::PrintLit { .. } => {}
                                     Stmt::Needs { .. } => {}
